@@ -29,9 +29,11 @@ def parse_wheel_tags(filename: str) -> tuple[list[str], list[str], list[str]]:
         )
 
     parts = filename.split("-")
-    # tags compare case-insensitively (packaging.tags.Tag lower-cases them)
-    python, abi, platform = (part.lower() for part in parts[-3:])
-    return python.split("."), abi.split("."), platform.split(".")
+    # tags compare case-insensitively (packaging.tags.Tag lower-cases each of them)
+    python, abi, platform = (
+        [tag.lower() for tag in part.split(".")] for part in parts[-3:]
+    )
+    return python, abi, platform
 
 
 def _ensure_version_specifier(spec: str) -> VersionSpecifier:
